@@ -115,9 +115,36 @@ def handle (enc : String) : String :=
 
 end NestDrive
 
+def showOptNat : Option Nat → String
+  | some n => toString n
+  | none => ""
+
+def showBool (b : Bool) : String := if b then "True" else "False"
+
+def modelLoopAttr (len : Nat) (sized : Bool) : String :=
+  let rows := (List.range len).map fun idx => loopAttrsK idx (if sized then some len else none) 0
+  if rows.any (fun r => match r with | .panic => true | _ => false) then "panic"
+  else "ok:" ++ String.join (rows.map fun r => match r with
+    | .ok (some a) => s!"{a.index0}:{a.index}:{showOptNat a.length}:{showOptNat a.revindex}:{showOptNat a.revindex0}:{showBool a.first}:{showBool a.last}:{a.depth}:{a.depth0};"
+    | _ => "::::::::;")
+
+def modelZpad (style : String) (d w : Nat) : String :=
+  let g := if style = "x" then 4 else 3
+  let l := groupedLen d g
+  if l < w then showRes toString (zeroPadK l ((d - 1) % g + 1) (w - l) g)
+  else s!"ok:{l}"
+
 def handle (case : String) : String :=
   match case.trimAscii.toString.splitOn " " with
   | ["k", "nest", enc] => NestDrive.handle enc
+  | ["k", "loopattr", len, sized] =>
+    match len.toNat? with
+    | some len => modelLoopAttr len (sized == "1")
+    | none => "bad-case"
+  | ["k", "zpad", style, d, w] =>
+    match d.toNat?, w.toNat? with
+    | some d, some w => modelZpad style d w
+    | _, _ => "bad-case"
   | ["k", "range", a, b, c] =>
     match a.toInt?, optInt b, optInt c with
     | some a, some b, some c => modelRange a b c
